@@ -490,6 +490,8 @@ class DeepCopyMethod(MethodDescriptor):
         if self.__spec_class__.do_not_copy:
             return self
         new = self.__class__.__new__(self.__class__)
+        if memo is not None:
+            memo[id(self)] = new  # references back to this instance resolve to the copy
         for attr, value in self.__dict__.items():
             if inspect.ismethod(value) and value.__self__ is self:
                 # Re-bind methods of this instance to the copy (copying them
